@@ -1205,7 +1205,8 @@ CONTRACTS = [ContextInit(), SetContext(), Callback(), AddBatch('dict'), AddBatch
              AddStore(), RemoveStore(), PoolLoad(True), PoolLoad(False),
              LemmaNoResim(), LemmaPoolContent(), LemmaGenerator('admissible'), LemmaGenerator('stated-form'), LemmaStatedFormAdmissible(), LemmaSameValues()]
 
-TRUSTED_BASE = ['pyvc engine: proxies, loop cutting (visited-set iteration over dicts), inlining of real helper methods / properties',
+TRUSTED_BASE = ["Lean lemma L4a (lemmas/L4.lean, re-checked in the thorough tier): an invariant preserved by every operation holds after ANY finite sequence of operations; the reading that its hypothesis is the conjunction of this module's per-operation obligations is not mechanised; L4b: per-operation refinement (pool content view) lifts to operation sequences",
+                'pyvc engine: proxies, loop cutting (visited-set iteration over dicts), inlining of real helper methods / properties',
                 'python dict contract of a store (in / getitem / setitem / delitem / len / clear); elfi ArrayStore as specified by C06 (prefix of indices, append at len, IndexError beyond) - proxy StoreRef, sanity-tested',
                 'networkx node-attribute dicts and graph["outputs"] set as used by PoolLoader (proxy NetProxy, sanity-tested)',
                 'C03 (assumed callee contract): Executor.execute invokes only nodes that have an operation in the net it receives and returns exactly the requested outputs',
@@ -1294,3 +1295,5 @@ def replay_refuted(cname, rf):
 def replay_input(inp):
     from bounded import c05 as b
     return b.replay_input(inp)
+
+USES_LEAN_LEMMAS = ['L4a invariant after any operation sequence', 'L4b refinement after any operation sequence']      # re-checked with lean (selftest/lean_check.sh) in the thorough tier
